@@ -8,7 +8,7 @@ import tracemalloc
 
 from sim import kernel
 kernel.boot()
-from sim import nodes, scen, taps, byz, mutate, mitm, script as sim_script  # noqa
+from sim import nodes, scen, taps, byz, mutate, mitm, net, script as sim_script  # noqa
 from sim.trace import where                                                # noqa
 
 ID = "C08"
@@ -51,7 +51,7 @@ RECORD = ["oversize_record", "empty_record", "unknown_type", "sslv2_garbage",
           "hs_len_max_eof"]
 PROBES = mutate.GENERIC + STRUCT + RECORD + [
     "victim_client", "victim_server", "post_handshake", "memory_metered",
-    "clean_alert", "tls13", "legacy"]
+    "clean_alert", "tls13", "legacy", "close_socket_false"]
 COMPONENTS_REAL = ["all tlslite parsers reached through live handshakes, "
                    "error mapping in _getMsg/_getNextRecordFromSocket, "
                    "certificate (de)compression, x509 parsing"]
@@ -229,6 +229,11 @@ def run(job, streams=None):
     def v(rule, sig, msg):
         viol.append({"rule": rule, "sig": sig, "msg": msg + " " + ctx[0]})
 
+    vtap = [None]
+    keep_socket = ch.draw(3, "cfg.keepsock") == 1
+    if keep_socket:
+        probes["close_socket_false"] = 1
+
     def build(chooser, rules):
         sim = nodes.new_run(seed, chooser=chooser, max_steps=60000,
                             sched="first")
@@ -237,6 +242,10 @@ def run(job, streams=None):
         vic = pair.c if victim == "c" else pair.s
         ip = byz.Interposer(peer.conn, rules)
         mt = taps.MsgTap(vic.conn)
+        vtap[0] = taps.SendTap(vic.conn)
+        # the application may keep ownership of the socket
+        if keep_socket:
+            vic.conn.closeSocket = False
         return sim, pair, peer, vic, ip, mt
 
     def op_gen(ep, op):
@@ -284,8 +293,10 @@ def run(job, streams=None):
         # built before the meters start: the harness' own allocations must
         # not be charged to the victim
         inflated = [16, 24, 32][ch.draw(3, "mu.bomb")] * 1024 * 1024
-        declared = [100, 70000, 0xffffff][ch.draw(
-            3 if job.get("tier") == "thorough" else 2, "mu.decl")]
+        # boundary values of the declared length: 0 is "no limit" for
+        # zlib's max_length, 1 the smallest real limit
+        declared = [100, 70000, 0, 1, 0xffffff][ch.draw(
+            5 if job.get("tier") == "thorough" else 4, "mu.decl")]
         if declared == 0xffffff:
             inflated = 80 * 1024 * 1024
         info["bomb"] = mutate.cert_bomb(declared, inflated)
@@ -452,6 +463,20 @@ def run(job, streams=None):
                       "fatal alert was sent first" % (e,))
                 else:
                     probes["clean_alert"] = 1
+                    # ... and it must have left the endpoint: every record
+                    # the record layer produced is on the wire by now
+                    out_pipe = pair.link.c2s if victim == "c" else \
+                        pair.link.s2c
+                    rp = net.RecordParser()
+                    on_wire = len(rp.feed(bytes(out_pipe.wire_log)))
+                    made = len(vtap[0].records)
+                    if on_wire < made and not rp.buf:
+                        v("alert_first", "not_on_wire|%s|%s" % (
+                            "client" if victim == "c" else "server",
+                            "keep_socket" if keep_socket else "close_socket"),
+                          "victim raised %r after queueing its fatal alert, "
+                          "but %d of the %d records it produced never "
+                          "reached the transport" % (e, made - on_wire, made))
         if closed_after is False:
             v("not_closed", type(e).__name__, "connection open after %r" %
               (e,))
